@@ -232,10 +232,26 @@ func cmdCheck(args []string) int {
 	replayDir := filepath.Join(verifDir(), "replays", id)
 	os.MkdirAll(replayDir, 0755)
 	nReplay := 0
+	type jobOut struct {
+		rep          jobReport
+		lines        []string
+		inconclusive []string
+		violations   int
+		knownHits    int
+	}
+	var selected []Job
 	for _, j := range jobs {
 		if only != "" && j.Func != only && j.Name != only {
 			continue
 		}
+		selected = append(selected, j)
+	}
+	outs := make([]*jobOut, len(selected))
+	var pmu sync.Mutex
+	runJob := func(idx int, j Job) {
+		o := &jobOut{}
+		outs[idx] = o
+		say := func(format string, a ...interface{}) { o.lines = append(o.lines, fmt.Sprintf(format, a...)) }
 		name := j.Name
 		if name == "" {
 			name = j.Func
@@ -254,19 +270,18 @@ func cmdCheck(args []string) int {
 		}
 		res := interp.Explore(l.prog, l.pkgs[j.Pkg], j.Func, cfg)
 		rep := jobReport{Job: name, Harness: res.Harness, Bounds: j.Bounds, Params: j.Params, Result: res, Note: j.Note, scope: j.Only}
-		fmt.Printf("[%s] %s: paths=%d queries=%d (unknown %d) solver=%.1fs wall=%.1fs proved=%d failures=%d\n", id, name, res.Paths, res.Queries, res.QUnknown, res.SolverSeconds, res.WallSeconds, sumMap(res.AssertsProved), len(res.Failures))
+		say("[%s] %s: paths=%d queries=%d (unknown %d) solver=%.1fs wall=%.1fs proved=%d failures=%d", id, name, res.Paths, res.Queries, res.QUnknown, res.SolverSeconds, res.WallSeconds, sumMap(res.AssertsProved), len(res.Failures))
 		for _, m := range res.Inconclusive {
-			inconclusive = append(inconclusive, name+": "+m)
+			o.inconclusive = append(o.inconclusive, name+": "+m)
 		}
 		for _, w := range j.Reach {
 			if res.Reached[w] == 0 {
-				inconclusive = append(inconclusive, fmt.Sprintf("%s: vacuous: reachability witness %q not hit on any path", name, w))
+				o.inconclusive = append(o.inconclusive, fmt.Sprintf("%s: vacuous: reachability witness %q not hit on any path", name, w))
 			}
 		}
 		if len(j.Reach) == 0 && len(res.Reached) == 0 {
-			inconclusive = append(inconclusive, name+": vacuous: no reachability witness hit")
+			o.inconclusive = append(o.inconclusive, name+": vacuous: no reachability witness hit")
 		}
-		// native replay of failures (distinct assertion ids x known-finding class) and of sample paths
 		rp := newReplayer(j, l.pkgs[j.Pkg].Pkg.Name(), replayDir)
 		type pending struct {
 			f     interp.Failure
@@ -297,8 +312,11 @@ func cmdCheck(args []string) int {
 			pend = append(pend, pending{f, kf})
 		}
 		for _, p := range pend {
+			pmu.Lock()
 			nReplay++
-			path := filepath.Join(replayDir, fmt.Sprintf("%s-%d.json", j.Func, nReplay))
+			n := nReplay
+			pmu.Unlock()
+			path := filepath.Join(replayDir, fmt.Sprintf("%s-%d.json", j.Func, n))
 			writeReplayFile(path, id, j, p.f)
 			confirmed, why := true, "not replayed natively: "+j.Note
 			if !j.NoReplay {
@@ -310,17 +328,20 @@ func cmdCheck(args []string) int {
 			}
 			switch {
 			case !confirmed:
-				inconclusive = append(inconclusive, fmt.Sprintf("%s: counterexample for %s did not reproduce natively (%s): engine/model problem, not reported as violation; see %s", name, p.f.ID, why, path))
+				o.inconclusive = append(o.inconclusive, fmt.Sprintf("%s: counterexample for %s did not reproduce natively (%s): engine/model problem, not reported as violation; see %s", name, p.f.ID, why, path))
 			case p.known != nil:
-				knownHits++
-				if !printedKnown[p.known.raw] {
-					printedKnown[p.known.raw] = true
-					fmt.Printf("KNOWN-FINDING: property=%s %s [%s %s]\n", id, p.known.desc, j.Func, p.f.ID)
+				o.knownHits++
+				pmu.Lock()
+				first := !printedKnown[p.known.raw]
+				printedKnown[p.known.raw] = true
+				pmu.Unlock()
+				if first {
+					say("KNOWN-FINDING: property=%s %s [%s %s]", id, p.known.desc, j.Func, p.f.ID)
 				}
 			default:
-				violations++
-				fmt.Printf("VIOLATION property=%s replay=%s\n", id, path)
-				fmt.Printf("  harness=%s assertion=%s %s\n  input: %s\n", j.Func, p.f.ID, p.f.Msg, tapeString(p.f.Tape, 400))
+				o.violations++
+				say("VIOLATION property=%s replay=%s", id, path)
+				say("  harness=%s assertion=%s %s\n  input: %s", j.Func, p.f.ID, p.f.Msg, tapeString(p.f.Tape, 400))
 			}
 		}
 		if !j.NoReplay && len(res.Samples) > 0 {
@@ -330,19 +351,40 @@ func cmdCheck(args []string) int {
 			}
 			for k := 0; k < nS && k < len(res.Samples); k++ {
 				s := res.Samples[k]
-				path := filepath.Join(replayDir, fmt.Sprintf("%s-sample%d.json", j.Func, k))
+				path := filepath.Join(replayDir, fmt.Sprintf("%s-%s-sample%d.json", j.Func, name, k))
 				writeReplayFile(path, id, j, interp.Failure{Kind: "sample", Tape: s.Tape})
 				ok, why := rp.replaySample(path)
 				rep.Replayed++
 				if ok {
 					rep.Agreed++
 				} else {
-					inconclusive = append(inconclusive, fmt.Sprintf("%s: conformance: native run of a passing path disagrees (%s); see %s", name, why, path))
+					o.inconclusive = append(o.inconclusive, fmt.Sprintf("%s: conformance: native run of a passing path disagrees (%s); see %s", name, why, path))
 				}
 			}
 		}
 		rp.cleanup()
-		reports = append(reports, rep)
+		o.rep = rep
+	}
+	// jobs run three at a time (many are single-path solver-bound queries)
+	sem := make(chan struct{}, 3)
+	var jwg sync.WaitGroup
+	for idx, j := range selected {
+		jwg.Add(1)
+		sem <- struct{}{}
+		go func(idx int, j Job) {
+			defer func() { <-sem; jwg.Done() }()
+			runJob(idx, j)
+		}(idx, j)
+	}
+	jwg.Wait()
+	for _, o := range outs {
+		for _, l := range o.lines {
+			fmt.Println(l)
+		}
+		reports = append(reports, o.rep)
+		inconclusive = append(inconclusive, o.inconclusive...)
+		violations += o.violations
+		knownHits += o.knownHits
 	}
 	// cross-check of assertion queries on the other solvers (thorough)
 	var xc *crossCheck
